@@ -172,6 +172,10 @@ def main() -> int:
             known_hits[hit["id"]]["count"] += 1
 
     os.makedirs(os.path.join(HERE, "replays"), exist_ok=True)
+    if not args.replay:
+        import glob
+        for old in glob.glob(os.path.join(HERE, "replays", "%s_%s_*.json" % (pid, args.tier))):
+            os.unlink(old)
     replay_paths = []
     for i, v in enumerate(new_violations[:20]):
         path = os.path.join(HERE, "replays", "%s_%s_%d.json" % (pid, args.tier, i))
